@@ -311,7 +311,7 @@ Obs run_ep(int ep, int dev, ioc::Source const& src, Seed const& seed, unsigned c
     return o;
 }
 
-static const int CASE_LIMIT_S = 4;      // a <= 300-byte input that needs longer than this is reported as a hang
+static const int CASE_LIMIT_S = 4;      // a <= 300-byte input that needs longer than this, and on a second run alone longer than 60 s, is reported as a hang
 struct Opts { int devmask = 3; bool all256 = false; bool pairs = false; bool name_dev_trunc_only = true; };
 
 template <class Tag, class NativeImg, class DevA = DefaultDev>
@@ -333,7 +333,7 @@ void run_cases(Emit& e, Seed const& seed, std::vector<Case> const& cases, Opts c
             {
                 std::string id = unit + "/" + c.id + "/" + ioc::dev_name(dev) + "/" + ep_name(ep);
                 if (!e.begin(id)) continue;
-                { itimerval it{}; it.it_value.tv_sec = CASE_LIMIT_S; setitimer(ITIMER_REAL, &it, nullptr); }   // per-case watchdog
+                { itimerval it{}; it.it_value.tv_sec = e.case_limit(CASE_LIMIT_S); setitimer(ITIMER_REAL, &it, nullptr); }   // per-case watchdog
                 Obs a = run_ep<Tag, NativeImg, DevA>(ep, dev, src, seed, 0x5A);
                 if (a.na) { e.count("entry_point_not_provided_for_this_format"); e.end(false); continue; }
                 Obs b = run_ep<Tag, NativeImg, DevA>(ep, dev, src, seed, 0xC3);
